@@ -447,6 +447,24 @@ def verdicts (st : DState) (op : String) (args : List String) (goRes : String) :
              | _ => none)
            | _ => none)
       | none => []
+    | "valjoin", toks =>
+      match parseArgs toks (do let k ← hex; let p ← frame; pure (k, p)) with
+      | some (k, p) =>
+        cmpBool "C04" "join-validate-differs-from-spec" res
+          (match p.payload with
+           | some pl => (match pl.enc with | .ok b => some (p.mic == Spec.micJoin E k (mhdrEnc p.mtype p.major) b) | _ => none)
+           | none => none)
+      | none => []
+    | "valja", toks =>
+      match parseArgs toks (do let t ← nat; let e ← nat; let n ← nat; let k ← hex; let p ← frame; pure (t, e, n, k, p)) with
+      | some (t, e, n, k, p) =>
+        cmpBool "C04" "join-accept-validate-differs-from-spec" res
+          (match p.payload with
+           | some (.joinAccept ja) => (match ja.enc with
+             | .ok b => some (p.mic == Spec.micJoinAccept E k ja.optNeg (byteOfNat t) (BitVec.ofNat 64 e) (BitVec.ofNat 16 n) (mhdrEnc p.mtype p.major) b)
+             | _ => none)
+           | _ => none)
+      | none => []
     | "encja", toks =>
       match parseArgs toks (do let k ← hex; let p ← frame; pure (k, p)) with
       | some (k, p) =>
